@@ -117,7 +117,9 @@ func textOrByteStringDeterministic(input []byte) (int, error) {
 		return 0, err
 	}
 
-	if (uintLen + int(stringLen)) >= len(input) {
+	// stringLen is an untrusted 64-bit number: compare it as such before it is
+	// converted to int (a value >= 2^63 would become negative).
+	if stringLen >= uint64(len(input)) || (uintLen+int(stringLen)) >= len(input) {
 		panic("Text or byte string's length cannot exceed the length of the input byte array.")
 	}
 
@@ -129,6 +131,12 @@ func arrayDeterministic(input []byte) (int, error) {
 	lenOfNumOfItems, numOfItems, err := unsignedIntegerDeterministic(input)
 	if err != nil {
 		return 0, err
+	}
+
+	// Every item takes at least one byte, so a count above the input length
+	// (including counts that do not fit in an int) cannot be satisfied.
+	if numOfItems > uint64(len(input)) {
+		panic("Number of items on CBOR array is less than the number of items it claims.")
 	}
 
 	// Skip the starter byte and the bytes stating the amount of elements the array has.
@@ -159,6 +167,11 @@ func mapDeterministic(input []byte) (int, error) {
 	lenOfNumOfItemPairs, numOfItemPairs, err := unsignedIntegerDeterministic(input[0:])
 	if err != nil {
 		return 0, err
+	}
+
+	// Every key and every value takes at least one byte (see arrayDeterministic).
+	if numOfItemPairs > uint64(len(input))/2 {
+		panic("Number of items on CBOR map is less than the number of items it claims.")
 	}
 
 	// Skip the starter byte and the bytes stating the amount of element pairs the map has.
